@@ -99,6 +99,8 @@ Variants(e) ==
   \cup { [e EXCEPT !.vals[f] = AltVal(e, f)] : f \in DOMAIN e.fields }
   \cup { [e EXCEPT !.vals[f] = NilV] : f \in {"n", "q"} }
   \cup { [e EXCEPT !.vals["m"] = Ids(<<"a", "c", "b">>)] }
+  \* as many ids, all of them among the other side's, yet another set
+  \cup { [e EXCEPT !.vals["m"] = Ids(<<"a", "a", "b">>)], [e EXCEPT !.vals["m"] = Ids(<<"c", "c", "c">>)] }
   \* the same attribute name with another kind: a zero of another width prints the same
   \cup { Rekind([e EXCEPT !.vals["n"] = V(0)], "n", k, nl) : k \in {"int", "int64", "uint8"}, nl \in BOOLEAN }
   \cup { Rekind(e, "s", "int", FALSE) }
